@@ -19,14 +19,4 @@ let dispatch line =
   | "c24gen" :: r -> c24gen r
   | _ -> "BADCASE"
 
-let () =
-  let buf = Buffer.create (1 lsl 16) in
-  (try
-     while true do
-       let line = input_line stdin in
-       let r = (try dispatch line with e -> "MODEL-EXN " ^ Printexc.to_string e) in
-       Buffer.add_string buf r; Buffer.add_char buf '\n';
-       if Buffer.length buf > 60000 then (print_string (Buffer.contents buf); Buffer.clear buf)
-     done
-   with End_of_file -> ());
-  print_string (Buffer.contents buf)
+let () = Conv.main dispatch
